@@ -1,6 +1,6 @@
 SPECIFICATION Spec
 CONSTANTS
-  KeyIsAddress = FALSE
+  KeyMode = "unique"
   MaxOps = 6
 INVARIANT Isolated
 VIEW StateView
